@@ -83,7 +83,7 @@ mut("c12_temporal_compare", "C12", "cvss/cvss2.py", "        if cvss_object.scor
 mut("c13_min_27", "C13", "cvss/parser.py", "{26,}", "{27,}")
 mut("c13_only_31", "C13", "cvss/parser.py", r"(?:CVSS:3\.\d/)?", r"(?:CVSS:3\.1/)?")
 # ---- C14 (a monotonicity break that C02's model also sees)
-mut("c14_lookup_inversion", "C14", "cvss/constants4.py", '("212121", 0.5),', '("212121", 0.2),')
+mut("c14_lookup_inversion", "C14", "cvss/constants4.py", '("212121", 0.5),', '("212121", 1.3),')
 # ---- C15
 mut("c15_order", "C15", "cvss/constants3.py", 'ENVIRONMENTAL_METRICS = ["CR", "IR", "AR", "MAV", "MAC", "MPR", "MUI", "MS", "MC", "MI", "MA"]', 'ENVIRONMENTAL_METRICS = ["CR", "IR", "AR", "MAV", "MAC", "MPR", "MUI", "MC", "MS", "MI", "MA"]')
 # ---- C16
